@@ -34,12 +34,14 @@ DESIGN_REF = "§5 C16"
 KEYS = ("connect", "read", "write", "pool")
 
 
-def run_kind(kind, tcfg, runtime):
+def run_kind(kind, tcfg, runtime, retries=0, faults=None):
     """one request (plus a reused second one) through `kind` with time-out configuration tcfg -> list of (op, timeout, phase)"""
     import anyio
     interim = kind == "direct-h1-interim"
-    w = sweep.build_world("direct-h1" if interim else kind, True, max_connections=2, yield_in_ops=False)
+    w = sweep.build_world("direct-h1" if interim else kind, True, max_connections=2, yield_in_ops=False, retries=retries)
     pool, net = w["pool"], w["net"]
+    if faults:
+        net.behavior.faults.update(faults)
     if interim:
         import servers
 
@@ -121,6 +123,27 @@ def run(ctx, driver):
                         break
                 if len(rec.samples) < 3 and kind in ("tunnel-h1", "socks5-auth-tls") and tcfg.get("connect") == 1.5:
                     rec.samples.append(payload)
+    # connection attempts that are repeated (retries > 0, the first one or two fail): every attempt carries the request's connect time-out
+    import httpcore
+    for kind in ("direct-h1", "direct-tls", "direct-h2"):
+        for tcfg in cfgs[:7]:
+            for nfail in (1, 2):
+                for what in (httpcore.ConnectError, httpcore.ConnectTimeout):
+                    ops, out = run_kind(kind, tcfg, "asyncio", retries=2, faults={k: what for k in range(nfail)})
+                    rec.evals += 1
+                    rec.distinct.add(("retry", kind, repr(sorted(tcfg.items(), key=str)), nfail, what.__name__))
+                    rec.dist["retry-kind:" + kind] += 1
+                    payload = {"kind": kind, "timeouts": dict(tcfg), "failed_attempts": nfail, "fault": what.__name__, "ops": [[o, t] for o, t in ops][:40],
+                               "outcome": out.get("outcome")}
+                    if out.get("outcome") != "ok":
+                        rec.fail("run-failed", {"kind": kind, "how": "retry"}, payload)
+                        continue
+                    for i, (op, t) in enumerate(ops):
+                        if op == "sleep":
+                            continue
+                        if t != tcfg.get(expected_key(op)):
+                            rec.fail("wrong-timeout", {"kind": kind, "op": op, "how": "retry"}, dict(payload, op_index=i, got=t, want=tcfg.get(expected_key(op))))
+                            break
     pool_timeout_runs(ctx, rec)
     return rec.finish("C16/B2 recorded time-outs + pool time-out instant",
                       "every connection kind (direct h1/TLS/h2, forward, tunnel h1/h2, SOCKS5 +-auth+TLS) x time-out configurations (all distinct, "
